@@ -90,6 +90,52 @@ def enums():
     return rows
 
 
+def norm_src(node):
+    return re.sub(r"\s+", " ", ast.unparse(node)).replace("1.0", "1")
+
+
+def contract_sites():
+    """decision logic of every `contract` method: (file, class, default of `tol`, purity tests
+    `jnp.abs(<x> - 1) <op> <tol>`, arguments of `jnp.argmax`)"""
+    rows = []
+    for fn in sorted(glob.glob(os.path.join(REPO, "photon_weave", "state", "*.py"))):
+        rel = os.path.relpath(fn, REPO)
+        tree = ast.parse(open(fn).read())
+        for cls in [n for n in ast.walk(tree) if isinstance(n, ast.ClassDef)]:
+            for f in cls.body:
+                if isinstance(f, ast.FunctionDef) and f.name == "contract":
+                    args = f.args
+                    names = [a.arg for a in args.args]
+                    defaults = dict(zip(names[len(names) - len(args.defaults):], args.defaults))
+                    tol = norm_src(defaults["tol"]) if "tol" in defaults else "none"
+                    tests, picks, other = [], [], []
+                    for n in ast.walk(f):
+                        if isinstance(n, ast.Compare) and isinstance(n.left, ast.Call) and norm_src(n.left.func) == "jnp.abs" \
+                                and not any(isinstance(p, ast.Call) and norm_src(p.func) == "jnp.argmax" and any(n is q for q in ast.walk(p)) for p in ast.walk(f)):
+                            arg = n.left.args[0]
+                            shape = "abs(x - 1)" if isinstance(arg, ast.BinOp) and isinstance(arg.op, ast.Sub) and norm_src(arg.right) == "1" else norm_src(n.left)
+                            tests.append(f"{shape} {norm_src(n).split(norm_src(n.left), 1)[1].strip()}")
+                        if isinstance(n, ast.Call) and norm_src(n.func) == "jnp.argmax":
+                            picks.append(norm_src(n.args[0]))
+                        if isinstance(n, ast.Call) and norm_src(n.func) in ("jnp.isclose", "jnp.allclose", "np.isclose", "np.allclose"):
+                            other.append(norm_src(n))
+                    rows.append((rel, cls.name, tol, tests, picks + other))
+    return rows
+
+
+def kraus_check_source():
+    """normalised statements of `kraus_identity_check` (_math/ops.py)"""
+    fn = os.path.join(REPO, "photon_weave", "_math", "ops.py")
+    tree = ast.parse(open(fn).read())
+    for f in ast.walk(tree):
+        if isinstance(f, ast.FunctionDef) and f.name == "kraus_identity_check":
+            names = [a.arg for a in f.args.args]
+            defaults = dict(zip(names[len(names) - len(f.args.defaults):], f.args.defaults))
+            body = [norm_src(st) for st in f.body if not (isinstance(st, ast.Expr) and isinstance(st.value, ast.Constant))]
+            return [("tol=" + (norm_src(defaults["tol"]) if "tol" in defaults else "none"))] + body
+    return []
+
+
 def lstr(xs):
     return "[" + ", ".join('"' + x + '"' for x in xs) + "]"
 
@@ -124,6 +170,14 @@ def main():
     for k, (c, m, ren, req, kinds, lvl) in enumerate(e):
         L.append(f'  ("{c}", "{m}", {"true" if ren else "false"}, {lstr(req)}, {lstr(kinds)}, {lvl})' + ("," if k < len(e) - 1 else ""))
     L.append("]\n")
+    L.append("/-- decision logic of every `contract` method: (file, class, default tol, purity tests, argmax arguments) -/")
+    L.append("def contractSites : List (String × String × String × List String × List String) := [")
+    cs = contract_sites()
+    for k, (a, b, c, d, e2) in enumerate(cs):
+        L.append(f'  ("{a}", "{b}", "{c}", {lstr(d)}, {lstr(e2)})' + ("," if k < len(cs) - 1 else ""))
+    L.append("]\n")
+    L.append("/-- normalised source of `kraus_identity_check` -/")
+    L.append("def krausCheckSource : List String := " + lstr([x.replace('"', "'") for x in kraus_check_source()]) + "\n")
     L.append("end PW.Generated")
     txt = "\n".join(L) + "\n"
     os.makedirs(os.path.dirname(OUT), exist_ok=True)
